@@ -10,7 +10,8 @@ SOURCE_COMMITS = ["746fd1a fix: undo the instrumentation counts when the new var
                   "e89a480 fix: transform() no longer leaves '<function name> = None' in the module globals when the name was not a global (methods, nested functions)",
                   "1868cdf fix: report an absolute reference with a relative module part ('/.x/f') as an unresolvable reference",
                   "d2d4c05 fix: VKeyword objects with equal key and value compare equal",
-                  "1282c41 fix: a /module/function reference to a module without a source file is refused with CodeNotFoundError"]
+                  "1282c41 fix: a /module/function reference to a module without a source file is refused with CodeNotFoundError",
+                  "3eb52de fix: a parameter that the body rebinds keeps the provenance 'argument'"]
 
 claim("C12", "P", "AST normal-form comparison tables + wrapper-guard agreement (syntactic dataflow)",
       "Decides for all integers (not a sample): each stock comparison predicate is the single comparison its name states, Range rejects exactly value<start / value>=end "
